@@ -6,6 +6,7 @@
 //!   pqmc replay <file>                  re-executes one recorded case without the explorer
 
 mod c15;
+mod cost;
 mod crash;
 mod e3;
 mod explore;
